@@ -145,8 +145,8 @@ def gen_recursion(rng, templates, max_struct=3, locals_max=120):
                 entry, info = "sl%s(0, n)" % fam, "%d locals of T%d" % (m, d)
                 add = m * (m - 1) // 2
             ctl = (lambda lim, add=add: lim + lim * add)
-            if d >= 3:
-                ctl_lim, big = 3, True
+            if d >= 2:
+                ctl_lim, big = 3, (d >= 3)
         elif t == "tuple":
             d = rng.randint(1, min(3, max_struct))
             ty = "Int64"
@@ -166,8 +166,8 @@ def gen_recursion(rng, templates, max_struct=3, locals_max=120):
             L.append("    tu%s(0, n, t%d)" % (fam, d))
             L.append("}")
             entry, ctl, info = "tue%s(n)" % fam, (lambda lim: 2 * lim), "tuple depth %d by value (%d bytes)" % (d, 8 ** (d + 1))
-            if d >= 3:
-                ctl_lim, big = 3, True
+            if d >= 2:
+                ctl_lim, big = 3, (d >= 3)
         elif t == "expr":
             e = rng.choice([4, 16, 48])
             L.append("fn ex%s(n: Int64, lim: Int64): Int64 {" % fam)
